@@ -12,9 +12,9 @@ def run(ctx):
     import trancommon
     trancommon.exhaustive(ctx, "C02")
     # (a) op-level interleavings of 2-3 colliding transactions driven from one goroutine
-    dbcommon.run_db(ctx, "tranpairs", 24 if ctx.thorough() else 6, "C02p")
+    dbcommon.run_db(ctx, "tranpairs", 60 if ctx.thorough() else 6, "C02p")
     # (b) free-running concurrent clients against the real checker/merger/persist goroutines
-    dbcommon.run_db(ctx, "tran", 8 if ctx.thorough() else 2, "C02c")
+    dbcommon.run_db(ctx, "tran", 24 if ctx.thorough() else 2, "C02c")
     # (c) 40 tables: table infos in deeper nodes of the persistent metadata map, long-lived readers
-    dbcommon.run_db(ctx, "wide", 4 if ctx.thorough() else 1, "C02w")
+    dbcommon.run_db(ctx, "wide", 12 if ctx.thorough() else 1, "C02w")
     ctx.assumptions += dbcommon.ASSUME
